@@ -244,7 +244,8 @@ func (b *assignmentBuilder) createWithConverter(lhs, rhs bmodel.Node, converter 
 				return nil
 			}
 			argNode, ok = b.castNode(util.DerefPtr(converter.ArgType()), rhsNode)
-			if !ok {
+			if !ok || !isAddressable(argNode) {
+				// Its address is going to be taken.
 				return nil
 			}
 		}
@@ -267,6 +268,20 @@ func (b *assignmentBuilder) createWithConverter(lhs, rhs bmodel.Node, converter 
 
 	logger.Warnf("%v: no assignment for %v [%v]", posStr, lhsExpr, b.imports.TypeName(lhs.ExprType()))
 	return gmodel.NoMatchField{LHS: lhsExpr}, nil
+}
+
+// isAddressable reports whether the expression of the node can be the operand of "&".
+func isAddressable(n bmodel.Node) bool {
+	switch v := n.(type) {
+	case bmodel.RootNode:
+		return true
+	case bmodel.StructFieldNode:
+		p := v.Parent()
+		return p != nil && (util.IsPtr(p.ExprType()) || isAddressable(p))
+	default:
+		// Results of calls and conversions are not addressable.
+		return false
+	}
 }
 
 // createWithMapper creates an assignment for the given lhs and rhs nodes using the
